@@ -6,6 +6,8 @@ Decided structurally:
                 union of kinds equals the expected set (all eleven, minus frozen exceptions with reasons)
   C14.switch    keyword-dispatch drivers (read_copy, read_save, read_use): the kind named by each `case KEY_<KW>` label is
                 the only kind its body touches; `cell` cases cover every kind exactly once; expected keyword sets covered
+  C14.cell      RUN_CELLS: run_as_cells skips a requested cell only when none of the solution sources that set_advection
+                accepts (SOLUTION n, MIX n) exists
   C14.consume   one-shot requests are consumed by the operation that executes them, per kind: in copy_entities the loop
                 of kind k is followed by copier_clear(&copy_k) - each kind exactly once; delete_entities ends in
                 delete_info.SetAll(false) and dump_ostream in dump_info.SetAll(false) on the path that executed requests
@@ -182,6 +184,7 @@ def run(P, R, tier):
             R.anchor_missing("C14.switch", "%s now handles kind %s listed as an exception" % (drv["function"], k))
 
     consume_rules(P, R, K)
+    cell_rule(P, R, K)
     copy_rules(P, R, K, tab)
     component_rules(P, R, K, tab)
 
@@ -192,6 +195,62 @@ def writes_store(s):
         if steps and steps[0][0] == "f" and steps[0][1].startswith("Phreeqc::Rxn_"):
             return True
     return False
+
+
+# ------------------------------------------------------------------------------------------ RUN_CELLS cell guard
+
+def cell_rule(P, R, K):
+    """RUN_CELLS reads the current content of cell n.  run_as_cells silently skips a cell only when it has no solution source;
+    the sources are the kinds from which set_advection takes the cell's solution (a stored SOLUTION n or a MIX n).  The skip
+    guard must test exactly those kinds: testing fewer skips cells that are defined (e.g. by a MIX only)."""
+    R.rule("C14.cell", "run_as_cells skips a requested cell only when none of the solution sources accepted by set_advection exists", minimum=1)
+    sa = P.one("Phreeqc::set_advection")
+    sources = set()
+    stop_line = None
+    for c in T.calls(sa["body"]):
+        if T.callee_name(c) == "error_msg" and len(c[4]) >= 2 and T.lit_value(c[4][1]) not in (0, None):
+            stop_line = c[1] if stop_line is None else min(stop_line, c[1])
+    for c in T.calls(sa["body"]):
+        if T.callee_name(c) == "Rxn_find" and (stop_line is None or c[1] <= stop_line):
+            sources |= set(K.by_type(c))
+    if not sources or stop_line is None:
+        R.anchor_missing("C14.cell", "set_advection: solution sources / missing-solution STOP error not recognised")
+        return
+    for f in P.fns_named("Phreeqc::run_as_cells"):
+        guard = None
+        for lp in T.walk(f["body"]):
+            if lp[0] != "For":
+                continue
+            body = lp[5][2] if T.is_node(lp[5]) and lp[5][0] == "Compound" else []
+            if not any(T.is_node(s_) and any(T.callee_name(c) == "set_advection" for c in T.calls(s_)) for s_ in body):
+                continue
+            for s_ in body:
+                if T.is_node(s_) and s_[0] == "If" and T.is_node(s_[3]) and any(y[0] == "Continue" for y in T.walk(s_[3])) and \
+                        any(T.callee_name(c) == "Rxn_find" for c in T.calls(s_[2])):
+                    guard = s_
+        if guard is None:
+            R.anchor_missing("C14.cell", "run_as_cells: skip guard before set_advection not found")
+            continue
+        tested = set()
+        for part in flatten_and(guard[2]):
+            p_ = T.strip_casts(part)
+            if p_[0] == "Bin" and p_[2] == "==" and T.lit_value(p_[4]) == 0:
+                for c in T.calls(p_[3]):
+                    if T.callee_name(c) == "Rxn_find":
+                        tested |= set(K.by_type(c))
+        inst = "run_as_cells:skip-guard"
+        if tested == sources:
+            R.ok("C14.cell", inst, "skips only when no %s exists" % " and no ".join(sorted(sources)))
+        else:
+            R.violation("C14.cell", inst, "run_as_cells skips a cell when %s is missing, but set_advection takes the cell's solution from %s: a cell defined only by %s is "
+                        "silently skipped by RUN_CELLS" % (sorted(tested), sorted(sources), sorted(sources - tested) or "?"), file=f["file"], line=guard[1], function=f["q"])
+
+
+def flatten_and(n):
+    n = T.strip_casts(n)
+    if T.is_node(n) and n[0] == "Bin" and n[2] == "&&":
+        return flatten_and(n[3]) + flatten_and(n[4])
+    return [n]
 
 
 # ------------------------------------------------------------------------------------------ consumption
